@@ -39,6 +39,8 @@ def main():
             sh(['git', '-C', '/repo', 'checkout', '--', '.'])
         print(mid, res[mid].get('exit'), ' | '.join(res[mid].get('reported', [])[:2])[:200], flush=True)
         json.dump(res, open(out, 'w'), indent=1)
+    # evidence files written while a change was applied describe the changed tree: restore the evidence of the clean tree
+    sh(['git', '-C', V, 'checkout', '--', 'evidence'])
     # the checks regenerated the tie-A fragments from the changed sources: bring them back to the restored tree
     for g in ('mem', 'bst', 'map', 'core'):
         sh(['python3', os.path.join(V, 'extract', 'gen_%s.py' % g)])
